@@ -54,6 +54,9 @@ func c10Builds(r *core.Rand) []string {
 		if r.Bool(0.25) {
 			b = append(b, "big")
 		}
+		if i == 0 && r.Bool(0.1) {
+			b = append(b, "huge")
+		}
 		b = append(b, fmt.Sprintf("w%d", r.Range(1, 6)), "snap")
 		if r.Bool(0.12) {
 			b = append(b, "reap", fmt.Sprintf("w%d", r.Range(1, 4)), "snap")
@@ -444,6 +447,9 @@ func c10Run(c *core.Ctx, raw json.RawMessage) {
 		}
 		if o.Steps > 6 {
 			c.Probe("transfers_split_into_many_writes")
+		}
+		if o.WireLen > 256*1024 {
+			c.Probe("transfers_longer_than_one_transport_buffer")
 		}
 		c10Judge(c, eng, tag, &op, spec, info, S, dest, destDir, before, o, producerFault, baseRef, restoreTo)
 		dest.Close()
